@@ -1,14 +1,17 @@
 (* C07 driver.  One case per line:
-     case TAB v_rm TAB v_init TAB path(,) TAB names(,);versions(,);tags(,);flavors(,) TAB proc|proc|...
-   proc = P;loc;flavor;crash;q;op&op&...      crash = ~ or i,g,b     q = 0/1
+     case TAB v_rm TAB v_init TAB path(,) TAB names(,);versions(,);tags(,);flavors(,);usertags(,) TAB proc|proc|...
+          TAB v_uloc TAB v_ustale TAB v_noread TAB v_shared
+   proc = P;user;admin;flavor;crash;q;op&op&...      crash = ~ or i,g,b     q = 0/1    admin = 0/1
         | X;loc;stack;flavor                  an outside deletion of a cache file
    op   = an operation in the format of the C06 driver, or  DC,loc,stack,flavor
+          or UA,flavor,stack,force,noaction,tag,name,version  /  UU,flavor,stack,force,noaction,tag,name,version|~
    output: one TAB-separated segment per proc:
-     outcomes(,)#records(;)#pickles(;)#loaded(;)#answers(;)
+     outcomes(,)#records(;)#pickles(;)#loaded(;)#answers(;)#userrecords(;)
      record  = stack,kind,name,key,stamp            kind D / V / C
-     pickle  = loc,stack,flavor,stamp,content       content = family+family..., family = name!v:dir:table^...!t:v^...
+     pickle  = loc,stack,flavor,stamp,content       content = family+family..., family = name!v:dir:table^...!t:v^...!ut:v^...
      loaded  = stack=flavor,flavor,...
-     answer  = kind,mode,fields...                  mode c (through the cache) / f (from the files) *)
+     answer  = kind,mode,fields...                  mode c (through the cache) / f (from the files)
+     userrecord = user,stack,kind,name,key,stamp    kind D / C: the tag directories *)
 let opt (s : Stdlib.String.t) : ascii list option = if s = "~" then None else Some (dec_str s)
 
 let dec_op (s : Stdlib.String.t) : op =
@@ -25,10 +28,18 @@ let dec_op (s : Stdlib.String.t) : op =
   | _ -> failwith "bad op"
 
 let dec_pop (s : Stdlib.String.t) : pop =
-  if Stdlib.String.length s >= 3 && Stdlib.String.sub s 0 3 = "DC," then
+  let pre k = Stdlib.String.length s >= 3 && Stdlib.String.sub s 0 3 = k in
+  if pre "DC," then
     (match Stdlib.String.split_on_char ',' s with
      | [_; l; st; f] -> PDel (dec_str l, dec_str st, dec_str f)
      | _ -> failwith "bad DC")
+  else if pre "UA," || pre "UU," then begin
+    let a = Array.of_list (Stdlib.String.split_on_char ',' s) in
+    let o = { o_flavor = dec_str a.(1); o_stack = opt a.(2); o_force = bool_of_field a.(3);
+              o_noaction = bool_of_field a.(4) } in
+    if a.(0) = "UA" then PUAssign (o, dec_str a.(5), dec_str a.(6), dec_str a.(7))
+    else PUUnassign (o, dec_str a.(5), dec_str a.(6), opt a.(7))
+  end
   else POp (dec_op s)
 
 let cat sep l = Stdlib.String.concat sep l
@@ -42,11 +53,21 @@ let show_records (w : world) : Stdlib.String.t =
     @ Stdlib.List.map (fun ((n, t), _) -> cat "," [enc_str s; "C"; enc_str n; enc_str t; stamp (RChain (s, (n, t)))]) st.cfiles)
     w.w_db)
 
+let show_urecords (w : world) : Stdlib.String.t =
+  let stamp k = match glookup rkey_eqb k w.w_stamps with Some t -> nat_s t | None -> "0" in
+  cat ";" (Stdlib.List.concat_map (fun (k, t) ->
+      match k with
+      | RUDir (u, s, n) -> [cat "," [enc_str u; enc_str s; "D"; enc_str n; "%"; nat_s t]]
+      | _ -> []) w.w_stamps
+    @ Stdlib.List.map (fun ((((u, s), n), t), _) ->
+        cat "," [enc_str u; enc_str s; "C"; enc_str n; enc_str t; stamp (RUChain (u, s, (n, t)))]) w.w_uc)
+
 let show_fdata (fd : (ascii list * family) list) : Stdlib.String.t =
   cat "+" (Stdlib.List.map (fun (n, fm) ->
     cat "!" [enc_str n;
              cat "^" (Stdlib.List.map (fun (v, (d, tb)) -> cat ":" [enc_str v; enc_str d; enc_str tb]) fm.f_versions);
-             cat "^" (Stdlib.List.map (fun (t, v) -> cat ":" [enc_str t; enc_str v]) fm.f_tags)]) fd)
+             cat "^" (Stdlib.List.map (fun (t, v) -> cat ":" [enc_str t; enc_str v]) fm.f_tags);
+             cat "^" (Stdlib.List.map (fun (t, v) -> cat ":" [enc_str t; enc_str v]) fm.f_utags)]) fd)
 
 let show_pickles (w : world) : Stdlib.String.t =
   cat ";" (Stdlib.List.map (fun (((l, s), f), p) ->
@@ -56,10 +77,24 @@ let show_loaded (m : (ascii list * pstack) list) : Stdlib.String.t =
   cat ";" (Stdlib.List.map (fun (s, ps) ->
     enc_str s ^ "=" ^ cat "," (Stdlib.List.map (fun (f, _) -> enc_str f) ps.ps_lookup)) m)
 
-let answers (path, names, versions, tags) (qfl : ascii list list) (w : world) (m : (ascii list * pstack) list)
-  : Stdlib.String.t =
+let answers (path, names, versions, tags) (utags : ascii list list) (u : ascii list) (qfl : ascii list list) (w : world)
+    (m : (ascii list * pstack) list) : Stdlib.String.t =
   let out = ref [] in
   let add l = out := cat "," l :: !out in
+  let umodes = [("c", (fun q -> uq_cache m q)); ("f", (fun q -> uq_db w u q))] in
+  Stdlib.List.iter (fun (mode, ask) ->
+    Stdlib.List.iter (fun n -> Stdlib.List.iter (fun f -> Stdlib.List.iter (fun t ->
+      Stdlib.List.iter (fun s ->
+        Stdlib.List.iter (fun v ->
+          match ask (UQHasTag (s, n, v, t, f)) with
+          | ABool true -> add ["UH"; mode; enc_str s; enc_str n; enc_str v; enc_str t; enc_str f]
+          | _ -> ()) versions;
+        (match ask (UQTagged (s, n, t, f)) with
+         | AVer (Some v) -> add ["UT"; mode; enc_str s; enc_str n; enc_str t; enc_str f; enc_str v]
+         | _ -> ())) path;
+      (match ask (UQFindTagged (n, t, f)) with
+       | AStackVer (Some (s, v)) -> add ["UG"; mode; enc_str n; enc_str t; enc_str f; enc_str s; enc_str v]
+       | _ -> ())) utags) qfl) names) umodes;
   let modes = [("c", (fun q -> q_cache m q)); ("f", (fun q -> q_db w q))] in
   Stdlib.List.iter (fun (mode, ask) ->
     Stdlib.List.iter (fun n -> Stdlib.List.iter (fun f ->
@@ -95,10 +130,14 @@ let rec uniq_l = function [] -> [] | x :: r -> x :: uniq_l (Stdlib.List.filter (
 let handle (f : Stdlib.String.t array) : Stdlib.String.t =
   match f.(0) with
   | "case" ->
-    let vr = { v_rm = bool_of_field f.(1); v_init = bool_of_field f.(2) } in
+    let flag i = Array.length f > i && bool_of_field f.(i) in
+    let vr = { v_rm = bool_of_field f.(1); v_init = bool_of_field f.(2); v_uloc = flag 6; v_ustale = flag 7;
+               v_noread = flag 8; v_shared = flag 9 } in
     let path = dec_strlist ',' f.(3) in
-    let (univ, allfl) = (match Stdlib.String.split_on_char ';' f.(4) with
-        | [a; b; c; d] -> ((path, dec_strlist ',' a, dec_strlist ',' b, dec_strlist ',' c), dec_strlist ',' d)
+    let (univ, allfl, utags) = (match Stdlib.String.split_on_char ';' f.(4) with
+        | [a; b; c; d] -> ((path, dec_strlist ',' a, dec_strlist ',' b, dec_strlist ',' c), dec_strlist ',' d, [])
+        | [a; b; c; d; e] -> ((path, dec_strlist ',' a, dec_strlist ',' b, dec_strlist ',' c), dec_strlist ',' d,
+                              dec_strlist ',' e)
         | _ -> failwith "bad universe") in
     let w = ref (init_world path) in
     let segs = Stdlib.List.map (fun ps ->
@@ -106,22 +145,23 @@ let handle (f : Stdlib.String.t array) : Stdlib.String.t =
         match a.(0) with
         | "X" ->
           w := delete_cache !w (dec_str a.(1)) (dec_str a.(2)) (dec_str a.(3));
-          cat "#" ["ok"; show_records !w; show_pickles !w; ""; ""]
+          cat "#" ["ok"; show_records !w; show_pickles !w; ""; ""; show_urecords !w]
         | "P" ->
-          let crash = (if a.(3) = "~" then None else
-                         match Stdlib.String.split_on_char ',' a.(3) with
+          let crash = (if a.(4) = "~" then None else
+                         match Stdlib.String.split_on_char ',' a.(4) with
                          | [i; g; b] -> Some ((nat_of_int (int_of_string i), nat_of_int (int_of_string g)), bool_of_field b)
                          | _ -> failwith "bad crash") in
-          let fl = dec_str a.(2) in
-          let p = { p_loc = dec_str a.(1); p_flavor = fl;
-                    p_ops = Stdlib.List.map dec_pop (split_sep '&' a.(5)); p_crash = crash } in
+          let fl = dec_str a.(3) in
+          let u = dec_str a.(1) in
+          let p = { p_user = u; p_admin = bool_of_field a.(2); p_flavor = fl;
+                    p_ops = Stdlib.List.map dec_pop (split_sep '&' a.(6)); p_crash = crash } in
           let ((w', m), ocs) = run_proc_S vr !w p in
           w := w';
           let crashed = Stdlib.List.exists (fun o -> o = OCrashed) ocs in
           (* every flavor of the universe is asked about, consulted by this instance or not *)
-          let ans = if a.(4) = "1" && not crashed then answers univ (uniq_l (fallbacks fl @ allfl)) w' m else "" in
+          let ans = if a.(5) = "1" && not crashed then answers univ utags u (uniq_l (fallbacks fl @ allfl)) w' m else "" in
           cat "#" [cat "," (Stdlib.List.map show_outcome ocs); show_records w'; show_pickles w';
-                   (if crashed then "" else show_loaded m); ans]
+                   (if crashed then "" else show_loaded m); ans; show_urecords w']
         | _ -> failwith "bad proc") (split_sep '|' f.(5)) in
     cat "\t" segs
   | _ -> failwith "unknown request"
